@@ -7,7 +7,8 @@ Scheduling points (DESIGN C12):
   main  : Thread.start(), every user_thread.is_alive(), every read of pcfg.should_exit, after every
           print_guess, before restore_omen
   thread: before input() consumes its scripted answer, sleep() (a yield: switching there is free),
-          before print_status, before the write of pcfg.should_exit, at return/raise
+          before print_status, before EVERY write to stderr (status / help / exit text), before and after the write of
+          pcfg.should_exit, at return/raise
 Between two points neither thread touches state the other one writes (the shared state is
 should_exit, report.pt_item, omen_guess_num and the thread's liveness).
 input() answers come from a script: '' / 'h' / 'q' / EOF (EOFError) / ERR (ValueError) / BLOCK
@@ -208,7 +209,13 @@ def run_scheduled(tdir, argv, script, choices, session='default_run'):
     o.status_calls = 0
     o.thread_exc = None
     nprinted = [0]
-    out, err = io.StringIO(), io.StringIO()
+    class _ErrProxy(io.StringIO):
+        # every stderr write of the keyboard thread is a scheduling point (real writes release the GIL)
+        def write(self, text):
+            if text not in ('', '\n') and sc.kb is not None and real_threading.current_thread() is sc.kb and not sc.killing:
+                sc.point(1, 'stderr_write')
+            return io.StringIO.write(self, text)
+    out, err = io.StringIO(), _ErrProxy()
     old_argv = sys.argv
     sys.argv = [os.path.join(tdir, 'pcfg_guesser.py')] + list(argv)
     shim = _ThreadingShim(sc)
